@@ -7,6 +7,7 @@ import Vicut.Model.Format
 import Vicut.Model.Args
 import Vicut.Model.Linewise
 import Vicut.Model.Reader
+import Vicut.Model.Files
 
 open Lean Vicut
 
@@ -97,6 +98,22 @@ def opKeys (req : Json) : Json :=
               ("left", Json.arr (r.bytes.map (fun b => (b.toNat : Json))).toArray),
               ("escaped", r.escaped)]
 
+/-- `{"op":"inplace","fs":[[path,content]..],"files":[..],"outputs":[[path, out|null]..],"backup":ext|null}`:
+the model's write-back plan. -/
+def opInplace (req : Json) : Json :=
+  let pairs (k : String) : List (Str × Option Str) := (jarr req k).toList.map fun e =>
+    match e with
+    | .arr #[.str p, .str c] => (p.toList, some c.toList)
+    | .arr #[.str p, _] => (p.toList, none)
+    | _ => ([], none)
+  let fs : FS := (pairs "fs").filterMap (fun e => e.2.map (fun c => (e.1, c)))
+  let outs := pairs "outputs"
+  let files := (jarr req "files").toList.map (fun j => (j.getStr?.toOption.getD "").toList)
+  let backup : Option Str := (req.getObjValAs? String "backup").toOption.map String.toList
+  let proc : Process := fun p _ => ((outs.find? (fun e => e.1 == p)).map (·.2)).getD none
+  let r := runInplace proc backup files fs
+  Json.mkObj [("exit", r.exit), ("fs", Json.arr (r.fs.map (fun e => Json.arr #[J e.1, J e.2])).toArray)]
+
 def dispatch (req : Json) : Json :=
   match jstr req "op" with
   | "ping" => Json.mkObj [("pong", true)]
@@ -104,6 +121,7 @@ def dispatch (req : Json) : Json :=
   | "lines" => opLines req
   | "parse_argv" => opParseArgv req
   | "keys" => opKeys req
+  | "inplace" => opInplace req
   | op => Json.mkObj [("err", Json.str s!"unknown op {op}")]
 
 partial def loop (h : IO.FS.Stream) (out : IO.FS.Stream) : IO Unit := do
